@@ -39,13 +39,15 @@ def bounds(tier):
         quick=dict(ray='2-D {0,1,2}^2: 72x72 ordered pairs x 2 affine images; 3-D {0,1}^3: 56x56 x 2; {0,1,2}^3: 78 first '
                        'lines (origins (0,0,0),(1,1,1),(2,0,1)) x 702',
                    wn_poly='3x3 grid, 3..5 vertices, 49 query points; 4x4 grid, 3..4 vertices, 81 query points',
-                   convex_hull='3x3 grid subsets of size 1..6, 4x4 grid subsets of size 1..4, 3 input orders',
+                   convex_hull='3x3 grid subsets of size 1..6, 4x4 grid subsets of size 1..4, 3 input orders; complements of <= 2/3/2 '
+                               'points of the 3x3/4x4/5x5 grids and subsets of size >= 9 of a fixed 12-point set',
                    is_left='3x3 and 4x4 grid triples, 2 affine images',
                    voxelize='5 shapes x ({2,3,4}^3 + (8,8,8),(5,2,7),(2,6,3),(7,5,2)) x cuboid/cube', find_ctrlpts='curves p<=3 K(p,2,4) + unclamped; surfaces '
                    "degrees {1,2,3}^2 over K'(p) level 1"),
         thorough=dict(ray='2-D as quick; 3-D {0,1,2}^3: 702x702 ordered pairs (+ {0,1}^3 dyadic image)',
                       wn_poly='3x3 grid 3..5 vertices; 4x4 grid, 3..6 vertices, 81 query points',
-                      convex_hull='3x3 and 4x4 grid, subsets of size 1..6, 3 input orders',
+                      convex_hull='3x3 and 4x4 grid, subsets of size 1..6, 3 input orders; complements of <= 2/5/3 points of the '
+                                  '3x3/4x4/5x5 grids and subsets of size >= 6 of a fixed 12-point set',
                       is_left='3x3, 4x4, 5x5 grid triples, 2 affine images',
                       voxelize='7 shapes x {2..8}^3 x cuboid/cube', find_ctrlpts='curves p<=5 K(p,3,8)/K(p,2,4) + unclamped; '
                       "surfaces degrees {1,2,3}^2 over K'(p) level 2"))[tier]
@@ -118,6 +120,11 @@ def gen_cases(tier, seed):
         for k in range(1, kmax + 1):
             for first in range(G * G - k + 1):
                 cases.append(dict(kind='hull', G=G, k=k, first=first))
+    # convex hull beyond the exhaustively enumerated sizes: all large subsets (complements of <= c points) of the grids and
+    # every subset of size >= 9 of a fixed 12-point set without grid structure
+    for fam, c in (('comp3', 2), ('comp4', 3 if q else 5), ('comp5', 2 if q else 3), ('gen12', 3 if q else 6)):
+        for cs in range(0, c + 1):
+            cases.append(dict(kind='hull_big', family=fam, drop=cs))
     # winding number
     for G, kmax in ([(3, 5), (4, 4)] if q else [(3, 5), (4, 6)]):
         for k in range(3, kmax + 1):
@@ -168,6 +175,9 @@ def case_weight(c):
     if k == 'vox':
         g = c['grid']
         return g[0] * g[1] * g[2] * (60 if c['cubes'] else 20)
+    if k == 'hull_big':
+        n = 12 if c['family'] == 'gen12' else int(c['family'][-1]) ** 2
+        return 40.0 * n ** c['drop']
     if k == 'hull':
         return 3.0 * (c['G'] ** 2 - c['first']) ** (c['k'] - 1) / max(1, [1, 1, 2, 6, 24, 120][c['k'] - 1])
     if k == 'is_left':
@@ -190,6 +200,10 @@ def run_case(case, ctx):
         _hull_case(case, ctx)
     elif k == 'hull_one':
         _hull_one(case['pts'], case, ctx)
+    elif k == 'hull_big':
+        base = GEN12 if case['family'] == 'gen12' else _grid_pts(int(case['family'][-1]), 2)
+        for dropped in itertools.combinations(range(len(base)), case['drop']):
+            _hull_one([p for i, p in enumerate(base) if i not in dropped], case, ctx)
     elif k == 'wn':
         _wn_case(case, ctx)
     elif k == 'wn_one':
@@ -322,6 +336,9 @@ def strictly_extreme(pts):
         if ext:
             out.append(p)
     return out
+
+
+GEN12 = [[0, 3], [2, 0], [6, 2], [4, 6], [3, 3], [2, 2], [4, 3], [3, 1], [3, 4], [1, 5], [5, 5], [7, 4]]
 
 
 def _hull_case(case, ctx):
